@@ -20,6 +20,7 @@ from . import gen_pubsub, lib
 
 PID = "C19"
 H = "harness_pubsub"
+HC = "harness_pubsub_cmd"   # command-level build (no internal API of memdb): the fallback when H does not compile
 HR = "harness_pubsub_race"
 RUNNER = "pubsubrun"
 
@@ -197,6 +198,9 @@ def run_conc(d, args, tag, harness=H, timeout=300):
             if e[0] == "SUB":
                 ci, ts, ta = int(e[1]), int(e[2]), int(e[3])
                 open_at.setdefault(ci, (ts, ta))
+            elif e[0] == "SUBM":
+                for ci in [int(x) for x in e[1].split(",")]:
+                    open_at.setdefault(ci, (int(e[2]), int(e[3])))
             elif e[0] == "UNSUB":
                 ci = int(e[1])
                 if ci in open_at:
@@ -215,6 +219,8 @@ def run_conc(d, args, tag, harness=H, timeout=300):
         for e in evs:
             if e[0] == "SUB":
                 cmds.append(("SUB", int(e[1])))
+            elif e[0] == "SUBM":
+                cmds.append(("SUBM", [int(x) for x in e[1].split(",")]))
             elif e[0] == "UNSUB":
                 pend.append(int(e[1]))
             elif e[0] == "BARRIER":
@@ -226,7 +232,7 @@ def run_conc(d, args, tag, harness=H, timeout=300):
             if m:
                 nmsgs += 1
                 ci = chans.get(m.group(1))
-                legal = ci is not None and (ci in active or (j < len(cmds) and cmds[j] == ("SUB", ci)))
+                legal = ci is not None and (ci in active or (j < len(cmds) and (cmds[j] == ("SUB", ci) or (cmds[j][0] == "SUBM" and ci in cmds[j][1]))))
                 if not legal:
                     findings.append(dict(kind="delivered-to-non-subscriber", conn=cid, value=v,
                                          detail="push for a channel this connection is not subscribed to at that point of its stream (never subscribed, or after the unsubscribe was acknowledged)"))
@@ -253,6 +259,13 @@ def run_conc(d, args, tag, harness=H, timeout=300):
                     if not m2 or chans.get(m2.group(1)) != cmd[1]:
                         findings.append(dict(kind="bad-confirmation", conn=cid, value=v))
                     active.add(cmd[1])
+                elif cmd[0] == "SUBM":
+                    # one confirmation per occurrence (one flat array, or Redis' one array per channel is not
+                    # expected here: the command had one reply), in the order of the command
+                    got_ch = [chans.get(h) for h in re.findall(r"b:737562736372696265,b:([0-9a-f-]+),i:-?\d+", v)]
+                    if not v.startswith("A[") or got_ch != cmd[1]:
+                        findings.append(dict(kind="bad-confirmation", conn=cid, value=v, detail="expected one confirmation per named channel %s" % cmd[1]))
+                    active.update(cmd[1])
                 else:
                     if not v.startswith("e:"):
                         findings.append(dict(kind="bad-barrier-reply", conn=cid, value=v))
@@ -373,6 +386,33 @@ def account(seq_stats, c, verdict):
         seq_stats["nontrivial"] += 1   # at least one message push was delivered and compared
 
 
+def fallback_search(ctx, d, build_log):
+    """harness_pubsub does not compile against the working tree.  Run the sequential programs that
+    need no internal API through the command-level build; report the first failing one, shrunk."""
+    cases = gen_pubsub.gen_programs(ctx.seed, 400 if ctx.tier == "quick" else 4000, api=False)
+    nfixed = len(gen_pubsub.fixed_cases(api=False))
+    batches = [cases[:nfixed]] + [cases[i:i + 100] for i in range(nfixed, len(cases), 100)]
+    nops = 0
+    for bi, batch in enumerate(batches):
+        res = run_seq(d, batch, tag="fb%d" % bi, harness=HC, timeout=600)
+        for c in batch:
+            cid = c[0].split()[1]
+            nops += len(c) - 2
+            if failing(res, cid):
+                small = shrink(d, c, harness=HC)
+                res2 = run_seq(d, [small], tag="fbfinal", harness=HC, timeout=120)
+                v = res2.get(small[0].split()[1], ("MISSING", ""))
+                if v[0] == "OK":
+                    small, v = c, res.get(cid, ("MISSING", ""))
+                lib.violation(PID, dict(kind="impl-vs-model", harness=HC, theorem="C19_delivery_exact / C19_publish_step / C19_publish_count / C19_subscribe_command_duplicates",
+                                        program=small[1:-1], readable=describe_ops(small), verdict=v[0], detail=v[1][:4000],
+                                        internal_api_build_error=build_log[-1500:],
+                                        note="harness_pubsub (which also uses ChanMap.Subscribe/UnSubscribe and hook H5 directly) no longer compiles against the working tree, so the lock obligation and the API-level scenarios could not be evaluated; this program was found with the command-level build harness_pubsub_cmd (real TCP connections into server.Manager.Handle, nothing else) and compared with the extracted model as usual"))
+                ctx.violations += 1
+                return dict(evaluations=nops, readable=" | ".join(describe_ops(small)))
+    return None
+
+
 def lock_obligation(d):
     out = d / "lock.json"
     rc, log = lib.sh("%s lockcheck %s %s" % (lib.BUILD / H, lib.REPO, out), cwd=d, timeout=120)
@@ -385,7 +425,7 @@ def lock_obligation(d):
     return facts, bad
 
 
-def replay(ctx, d):
+def replay(ctx, d, harness=H):
     r = json.load(open(ctx.replay))
     if r.get("kind") == "conc" and r.get("args"):
         findings, stats = run_conc(d, r["args"], "replay", harness=H if not r.get("race") else HR)
@@ -407,7 +447,7 @@ def replay(ctx, d):
         print("lock obligation now:", "holds" if bad == [] else bad)
         return 1 if bad else 0
     case = ["CASE r"] + r["program"] + ["END"]
-    res = run_seq(d, [case], tag="replay")
+    res = run_seq(d, [case], tag="replay", harness=harness)
     v = res.get("r", ("MISSING", ""))
     print("program:")
     for l in describe_ops(case):
@@ -437,10 +477,29 @@ def run(ctx):
                             (log1 if not ok1 else log2 if not ok2 else log3)[-2500:])
     d = lib.scratch("c19-")
     if ctx.replay:
+        r0 = json.load(open(ctx.replay))
+        if ok1 and (not ok2 or r0.get("harness") == HC) and r0.get("program") and not any(l.startswith("U ") for l in r0["program"]):
+            okc, logc = lib.ensure_harness(HC, srcdir="harness_pubsub_cmd")
+            if okc:
+                return replay(ctx, d, harness=HC)
         if not built:
             print(broken)
             return 1
         return replay(ctx, d)
+    if ok1 and not ok2:
+        # the internal API of memdb's channel table changed: search for a failing input at the
+        # command level (server.Manager.Handle over TCP only) before giving up
+        okc, logc = lib.ensure_harness(HC, srcdir="harness_pubsub_cmd")
+        if okc:
+            found = fallback_search(ctx, d, log2)
+            if found:
+                cov["discharged"] = 0
+                lib.write_evidence(PID, ctx.tier, ctx.seed, dict(cov, evaluations=found["evaluations"], distinct_nontrivial=0,
+                                                                 rule="command-level fallback search (harness_pubsub did not build)", samples=[found["readable"]]),
+                                   ["command-level fallback"], ctx.wall(), 1)
+                return 1
+        else:
+            broken = (broken or "") + " | the command-level harness does not build either: " + logc[-1500:]
 
     rc = 0
     nobl = 5
